@@ -315,6 +315,12 @@ func isFacts(s []byte) (ev tr.E) {
 	}()
 	isIdent := css.IsIdent(append([]byte{}, s...))
 	isURL := css.IsURLUnquoted(append([]byte{}, s...))
+	// the same questions about the argument as a piece of a longer text in the caller's memory
+	whole := append(append([]byte("url("), s...), ")x"...)
+	pristine := append([]byte{}, whole...)
+	piece := whole[4 : 4+len(s)]
+	in1, in2 := css.IsIdent(piece), css.IsURLUnquoted(piece)
+	ev["intact"] = bytes.Equal(whole, pristine) && in1 == isIdent && in2 == isURL
 	one := func(input []byte, kinds ...string) bool {
 		toks := lexers.RunTokens(lang, input)
 		if len(toks) != 2 || toks[0].IsErr || !toks[1].IsErr || toks[1].Err != "EOF" || !bytes.Equal(toks[0].Text, input) {
